@@ -870,7 +870,7 @@ func genC17(g *gen) {
 		items, file := cg.fileTail(20+g.r.Intn(60), false, false, 1+g.r.Intn(3))
 		cg.emitDec(g, 2+g.r.Intn(7), items, file)
 	}
-	// 3. D19: non-finite scores (finding score-nonfinite) and values DecodeDump rejects (model: abort)
+	// 3. non-finite scores (D19, repaired: printed as "inf"/"-inf"/"nan") and values DecodeDump rejects (model: abort)
 	d := g.pick(24, 600)
 	for i := 0; i < d; i++ {
 		cg.maxStr, cg.maxElems = 40, 5
@@ -1245,6 +1245,16 @@ func c17Canon(line []byte) string {
 		if n, ok := m["score"].(json.Number); ok {
 			if v, err := strconv.ParseFloat(string(n), 64); err == nil {
 				sc = fmt.Sprintf("%016x", math.Float64bits(v))
+			}
+		} else if t, ok := m["score"].(string); ok {
+			// JSON has no number for the non-finite scores: they are printed the way Redis prints them
+			switch t {
+			case "inf":
+				sc = fmt.Sprintf("%016x", math.Float64bits(math.Inf(1)))
+			case "-inf":
+				sc = fmt.Sprintf("%016x", math.Float64bits(math.Inf(-1)))
+			case "nan":
+				sc = fmt.Sprintf("%016x", math.Float64bits(math.NaN()))
 			}
 		}
 		return pre + ":m=" + b64("member64") + ":mt=" + str("member") + ":s=" + sc
